@@ -48,8 +48,11 @@ var c14Ops = []string{
 	"web.attach-bad #1",
 	// the same source fetched ten times over (REST and web UI alternating): nothing may run out
 	"source-x10 #1",
+	// an id with a slash in it, written into the path as it is (the Go client does that): the
+	// request names no message, with or without a base path
+	"rest.get no/such", "web.message no/such", "client.GetMessageSource no/such",
 	// a message whose received date lies before every earlier one's (straight into the store):
-	// listings and 'latest' follow arrival order, dates are metadata
+	// listings and 'latest' follow arrival order, dates are metadata.  (Must stay the last op.)
 	"deliver-backdated",
 }
 
@@ -144,6 +147,8 @@ func c14Exec(c *fw.Ctx, cas c14Case, from int) (key string, extend, nontrivial b
 			return "latest", m, "latest"
 		case "nope":
 			return "nope", nil, "unknown-id"
+		case "no/such":
+			return "no/such", nil, "unknown-id"
 		}
 		k := int(ref[1] - '0')
 		if k > len(ids) {
